@@ -1,6 +1,6 @@
 (* C17, scanner half for template bodies: per-command lemmas and the composition over a body.
    [lb17_okc] / [lb17_okb]: the commands / bodies covered: raw text without comment opener ([lb17_one_piece]), print commands, {debugger}, {log},
-   {let} (both forms), {if}/{elseif}/{else}, {for}/{ifempty} (list expression under [lb17_anylast]), {switch} with
+   {let} (both forms), {if}/{elseif}/{else}, {for}/{ifempty} (list expression whose text does not start with "-"), {switch} with
    {case v,...} (no default case), {css}, {call} with data="all" / data="e" / both parameter forms / none.
    [lb17_ok_runs]: the composition, by induction on the derivation of the class.
    [lb17_lex_body]: lex(String(body)) sends the items of [body_toks] (types and texts) followed by EOF; [lb17_lex_template_body]: the same with {/template} behind the body.
@@ -43,6 +43,13 @@ Proof.
   exact (lex_print_any ul ud Hla Hda Hle Hde inp 0 e Hwf Hlo se Hp (Hm se Hp)).
 Qed.
 
+(* ... which is what wf_body demands of the list expression of a {for} *)
+Lemma lb17_anylast_wf e : wf_expr e -> lex_ok e -> c17_no_lead_minus e -> lb17_anylast e.
+Proof.
+  intros Hwf Hlo Hm. apply lb17_anylast_no_minus; [exact Hwf|exact Hlo|].
+  intros se Hp. unfold c17_no_lead_minus, printed in Hm. rewrite Hp in Hm. exact Hm.
+Qed.
+
 (* the text of a {css} command: ASCII without "}" (lexCss reads runes up to the first "}") *)
 Definition lb17_css_ok (txt : bstr) : Prop := Forall (fun c => (c < 128)%N /\ c <> 125%N) txt.
 
@@ -65,9 +72,9 @@ Inductive lb17_okc : node -> Prop :=
 | lb17_ok_letv p name e : alnums name -> wf_expr e -> lex_ok e -> lb17_okc (NLetValue p name e)
 | lb17_ok_letc p name q ns : alnums name -> lb17_okb ns -> lb17_okc (NLetContent p name (NList q ns))
 | lb17_ok_if p conds : lb17_okconds true conds -> lb17_okc (NIf p conds)
-| lb17_ok_for p var lst q ns : alnums var -> wf_expr lst -> lex_ok lst -> lb17_anylast lst -> lb17_okb ns ->
+| lb17_ok_for p var lst q ns : alnums var -> wf_expr lst -> lex_ok lst -> c17_no_lead_minus lst -> lb17_okb ns ->
     lb17_okc (NFor p var lst (NList q ns) None)
-| lb17_ok_for_ie p var lst q ns q2 ns2 : alnums var -> wf_expr lst -> lex_ok lst -> lb17_anylast lst -> lb17_okb ns -> lb17_okb ns2 ->
+| lb17_ok_for_ie p var lst q ns q2 ns2 : alnums var -> wf_expr lst -> lex_ok lst -> c17_no_lead_minus lst -> lb17_okb ns -> lb17_okb ns2 ->
     lb17_okc (NFor p var lst (NList q ns) (Some (NList q2 ns2)))
 | lb17_ok_switch p v cases : wf_expr v -> lex_ok v -> lb17_okcases cases -> lb17_okc (NSwitch p v cases)
 | lb17_ok_css p suffix : lb17_css_ok suffix -> lb17_okc (NCss p None suffix)
@@ -737,7 +744,7 @@ Proof.
     destruct (IH p sc eq_refl l s Hs) as (l1 & G1 & S1).
     destruct (W lb17_go_close l1 [105; 102]%N itemIfEnd s ltac:(lb17_in) S1) as (l2 & G2 & S2 & D2).
     exists l2. split; [|auto]. exact (W lb17_go_trans _ _ _ _ _ _ _ _ G1 G2).
-  - (* for *) intros p var lst q ns Hvar Hwf Hlo Hany _ IHb txt Hp.
+  - (* for *) intros p var lst q ns Hvar Hwf Hlo Hnm _ IHb txt Hp. pose proof (lb17_anylast_wf lst Hwf Hlo Hnm) as Hany.
     rewrite lb17_print_for, (lb17_print_expr lst Hwf), lb17_print_list in Hp.
     destruct (print_node lst) as [sl|] eqn:El; cbn [obind] in Hp; [|discriminate].
     destruct (opt_all (map print_tree ns)) as [txts|] eqn:En; cbn [omap obind] in Hp; [|discriminate]. injection Hp as <-.
@@ -749,7 +756,7 @@ Proof.
         with ([T_ldelim; kw pit_For p; tk pit_DollarIdent 0 (36%N :: var); tk pit_Ident 0 v_in] ++ tokens_of lst ++ [T_rdelim] ++
               concat (map cmd_toks ns) ++ [] ++ CmdSyntax.close_tag pit_ForEnd).
       rewrite <- !app_assoc. reflexivity.
-  - (* for with ifempty *) intros p var lst q ns q2 ns2 Hvar Hwf Hlo Hany _ IHb _ IHb2 txt Hp.
+  - (* for with ifempty *) intros p var lst q ns q2 ns2 Hvar Hwf Hlo Hnm _ IHb _ IHb2 txt Hp. pose proof (lb17_anylast_wf lst Hwf Hlo Hnm) as Hany.
     rewrite lb17_print_for, (lb17_print_expr lst Hwf), !lb17_print_list in Hp.
     destruct (print_node lst) as [sl|] eqn:El; cbn [obind] in Hp; [|discriminate].
     destruct (opt_all (map print_tree ns)) as [txts|] eqn:En; cbn [omap obind] in Hp; [|discriminate].
